@@ -17,7 +17,7 @@ ID = "C16"
 COQ_IMPORT = "Corr.CNodes"
 COQ_CASE_TYPE = "g_case"
 COQ_CHECK = "g_check"
-THEOREMS = []
+THEOREMS = ["c16_metadata_tree_carried", "c16_strings_carried", "c16_arrays_carried", "c16_ints_carried", "c16_graph_metadata_in_dict", "c16_inert_types", "c16_inert_inference", "c16_inert_check", "c16_inert_file"]
 PROOF_FILES = ["Proofs/SerialProofs.v"]
 RULE = ("graphs from the C01 generator and consistent graphs from the C08 generator, each in three variants: without "
         "metadata, with random metadata trees (depth 0..4; unicode keys and strings, empty string, ints, floats incl. "
